@@ -142,9 +142,9 @@ def axiom_audit(module, names):
                           stderr=subprocess.STDOUT)
     raw = proc.stdout.decode(errors="replace")
     per = {}
-    for m in re.finditer(r"'([^']+)' depends on axioms: \[([^\]]*)\]", raw, re.S):
+    for m in re.finditer(r"'(\S+)' depends on axioms: \[([^\]]*)\]", raw, re.S):
         per[m.group(1)] = [a.strip() for a in m.group(2).replace("\n", " ").split(",") if a.strip()]
-    for m in re.finditer(r"'([^']+)' does not depend on any axioms", raw):
+    for m in re.finditer(r"'(\S+)' does not depend on any axioms", raw):
         per[m.group(1)] = []
     ok = proc.returncode == 0 and all(n in per for n in names) and \
         all(set(v) <= ALLOWED_AXIOMS for v in per.values())
